@@ -160,6 +160,27 @@ var evmRuntimeStore = []byte{
 // evmRuntimeKill: storage[2] = 7; SELFDESTRUCT(CALLER)
 var evmRuntimeKill = []byte{0x60, 0x07, 0x60, 0x02, 0x55, 0x33, 0xff}
 
+// factories: the calldata is the init code of the child.
+//
+//	evmFactoryCreate:  CALLDATACOPY(0,0,size); CREATE(0,0,size);        POP; STOP
+//	evmFactoryCreate2: CALLDATACOPY(0,0,size); CREATE2(0,0,size,0x2a);  POP; STOP
+//	evmFactoryRevert:  CALLDATACOPY(0,0,size); CREATE(0,0,size);        POP; REVERT(0,0)
+var evmFactoryCreate = []byte{0x36, 0x60, 0x00, 0x60, 0x00, 0x37, 0x36, 0x60, 0x00, 0x60, 0x00, 0xf0, 0x50, 0x00}
+var evmFactoryCreate2 = []byte{0x36, 0x60, 0x00, 0x60, 0x00, 0x37, 0x60, 0x2a, 0x36, 0x60, 0x00, 0x60, 0x00, 0xf5, 0x50, 0x00}
+var evmFactoryRevert = []byte{0x36, 0x60, 0x00, 0x60, 0x00, 0x37, 0x36, 0x60, 0x00, 0x60, 0x00, 0xf0, 0x50, 0x60, 0x00, 0x60, 0x00, 0xfd}
+
+// freshRuntime: runtime code never stored before on this chain (unreachable tail bytes after STOP
+// make its hash new): the store runtime, or the self-destruct runtime, plus a tag.
+func (c *chain) freshRuntime(a uint64, kill bool) []byte {
+	c.fresh++
+	base := evmRuntimeStore
+	if kill {
+		base = append(append([]byte(nil), evmRuntimeKill...), 0x00)
+	}
+	tag := []byte{0xfe, byte(a), byte(a >> 8), byte(a >> 16), byte(c.fresh), byte(c.fresh >> 8), byte(c.fresh >> 16)}
+	return append(append([]byte(nil), base...), tag...)
+}
+
 // evmInit wraps a runtime into creation code (stores 5 at slot 3 first, so creation writes too).
 func evmInit(runtime []byte) []byte {
 	pre := []byte{0x60, 0x05, 0x60, 0x03, 0x55}
@@ -181,6 +202,8 @@ type chain struct {
 	neoCodes [][]byte
 	evmStore ethcomm.Address
 	evmKill  ethcomm.Address
+	evmFact  [3]ethcomm.Address // factories: CREATE, CREATE2, CREATE then REVERT
+	fresh    uint32             // counter behind freshRuntime
 	notes    []string
 }
 
@@ -328,11 +351,20 @@ func newChain(dir string, r *rand.Rand, extraBlocks int) (*chain, error) {
 	}
 	c.evmStore = crypto.CreateAddress(c.ethAddrs[0], 0)
 	c.evmKill = crypto.CreateAddress(c.ethAddrs[0], 1)
-	c.ethNonce[c.ethAddrs[0]] = 2
-	if err := c.add(d0, d1, d2, e0, e1); err != nil {
+	var facts []*types.Transaction
+	for i, rt := range [][]byte{evmFactoryCreate, evmFactoryCreate2, evmFactoryRevert} {
+		_, ft, err := c.ethTx(c.ethKeys[0], uint64(2+i), nil, 0, 300000, 0, evmInit(rt))
+		if err != nil {
+			return nil, err
+		}
+		facts = append(facts, ft)
+		c.evmFact[i] = crypto.CreateAddress(c.ethAddrs[0], uint64(2+i))
+	}
+	c.ethNonce[c.ethAddrs[0]] = 5
+	if err := c.add(d0, d1, d2, e0, e1, facts[0], facts[1], facts[2]); err != nil {
 		return nil, fmt.Errorf("block2: %v", err)
 	}
-	for i, t := range []*types.Transaction{d0, d1, d2, e0, e1} {
+	for i, t := range []*types.Transaction{d0, d1, d2, e0, e1, facts[0], facts[1], facts[2]} {
 		if s := c.txState(t); s != 1 {
 			c.notes = append(c.notes, fmt.Sprintf("setup: block-2 tx %d state %d", i, s))
 		}
@@ -345,11 +377,11 @@ func newChain(dir string, r *rand.Rand, extraBlocks int) (*chain, error) {
 	w4 := must(c.signedInvoke(neoDelCall(c.neoDel, []byte("k1"), []byte("d1"), true), k.Acct, 0, 100005))
 	var word [32]byte
 	word[31] = 0x2a
-	_, e2, err := c.ethTx(c.ethKeys[0], 2, &c.evmStore, 0, 100000, 0, word[:])
+	_, e2, err := c.ethTx(c.ethKeys[0], 5, &c.evmStore, 0, 100000, 0, word[:])
 	if err != nil {
 		return nil, err
 	}
-	c.ethNonce[c.ethAddrs[0]] = 3
+	c.ethNonce[c.ethAddrs[0]] = 6
 	if err := c.add(w0, w1, w2, w3, w4, e2); err != nil {
 		return nil, fmt.Errorf("block3: %v", err)
 	}
